@@ -96,7 +96,9 @@ class IndexRemover(MultiFunction):
                     elif isinstance(e, ComponentTensor):
                         bound.update(e.ufl_operands[1])
                 self.bound[o2] = bound
-            if any(i in bound for i in i1):
+            # ... and an index of the component tensor that is bound again inside
+            # o2 is shadowed there: replacing it would rewrite the inner binder
+            if any(i in bound for i in i1) or any(i in bound for i in i2):
                 if o.ufl_operands[0] is o1:
                     return o
                 return o._ufl_expr_reconstruct_(o1, i1)
